@@ -43,7 +43,7 @@ fn gen_cmd(rng: &mut Rng, ctr: &mut u32, in_multi: bool) -> Argv {
     let k2 = key(rng);
     let k3 = key(rng);
     let v = val(rng, ctr);
-    let r = rng.gen_range(0..44);
+    let r = rng.gen_range(0..48);
     match r {
         0..=5 => av(&[["GET", "get", "GeT"][rng.gen_range(0..3)], &k]),
         6..=10 => av(&[["SET", "set"][rng.gen_range(0..2)], &k, &v]),
@@ -79,6 +79,10 @@ fn gen_cmd(rng: &mut Rng, ctr: &mut u32, in_multi: bool) -> Argv {
         40 if !in_multi && cfg!(feature = "lua") => av(&["EVAL", "redis.call('SET', KEYS[1], ARGV[1]); return redis.call('GET', KEYS[1])", "1", &k, &v]),
         41 if !in_multi && cfg!(feature = "lua") => av(&["EVAL", "return redis.call('INCR', KEYS[1])", "1", &k]),
         42 => av(&["NOSUCHCMD", &k]),
+        44 => av(&["FLUSHDB"]),
+        45 => av(&["FLUSHALL"]),
+        46 => av(&["HSCAN", &k, "0", "COUNT", "100000"]),
+        47 => av(&["ZSCAN", &k, "0", "COUNT", "100000"]),
         _ => av(&["PING"]),
     }
 }
@@ -139,6 +143,17 @@ fn normalise(name: &str, t: Tree) -> Tree {
             let mut p: Vec<Tree> = v.chunks(2).map(|c| Tree::Arr(Some(c.to_vec()))).collect();
             p.sort_by_key(|x| format!("{:?}", x));
             Tree::Arr(Some(p))
+        }
+        ("HSCAN" | "ZSCAN", Tree::Arr(Some(v))) if v.len() == 2 => {
+            let page = match &v[1] {
+                Tree::Arr(Some(items)) => {
+                    let mut p: Vec<Tree> = items.chunks(2).map(|c| Tree::Arr(Some(c.to_vec()))).collect();
+                    p.sort_by_key(|x| format!("{:?}", x));
+                    Tree::Arr(Some(p))
+                }
+                o => o.clone(),
+            };
+            Tree::Arr(Some(vec![v[0].clone(), page]))
         }
         ("KEYS" | "SMEMBERS" | "HKEYS" | "HVALS", Tree::Arr(Some(mut v))) => {
             v.sort_by_key(|x| format!("{:?}", x));
